@@ -251,8 +251,11 @@ def C12(tier):
     names = ['custom_size_cycle', 'two_live_custom', 'default_size', 'descriptors']
     jobs = [ajob('stack.%s' % names[i], 'harness/C12_stackalloc.c', ['-DSCEN=%d' % i], unwind=33, timeout=1800, extra=['--unwindset', 'myth_flmalloc.0:1'],
                  bounds=dict(size='every size in [1, 2^30-4096] (symbolic)', allocations='<= 4 mmap calls')) for i in range(4)]
-    return dict(jobs=jobs, assumptions=A_ASSUME + ['mmap returns a fresh page-aligned object of the requested length', 'sizes above 2^30 (int shift in MYTH_MALLOC_INDEX_TO_RSIZE) are outside the claim'],
-                functions=['get_new_myth_thread_struct_stack', 'free_myth_thread_struct_stack', 'get_new_myth_thread_struct_desc', 'free_myth_thread_struct_desc', 'myth_flmalloc', 'myth_flfree', 'myth_freelist_push', 'myth_freelist_pop'])
+    # the ownership ledger of the protocol harness (shared with C01/C13): stack released only after the final switch-away and once, record only after the finish
+    j = cj('ledger.create_finish_join.parentfirst.r2', 2, 0, 0, 1, 2); jobs.append(j)
+    if tier == 'thorough': jobs.append(cj('ledger.create_exit_detach.parentfirst.r4', 2, 1, 2, 1, 4, timeout=14000, mem=16))
+    return dict(jobs=jobs, assumptions=A_ASSUME + ['mmap returns a fresh page-aligned object of the requested length', 'sizes above 2^30 (int shift in MYTH_MALLOC_INDEX_TO_RSIZE) are outside the claim'] + ['ledger.* (engine B): ' + a for a in RICH_ASSUME],
+                functions=['myth_entry_point_cleanup', 'myth_join_body', 'get_new_myth_thread_struct_stack', 'free_myth_thread_struct_stack', 'get_new_myth_thread_struct_desc', 'free_myth_thread_struct_desc', 'myth_flmalloc', 'myth_flfree', 'myth_freelist_push', 'myth_freelist_pop'])
 
 
 C16_RC = ['myth_mutex_lock_body:sb_mutex_lock', 'myth_mutex_trylock_body:sb_mutex_trylock', 'myth_mutex_unlock_body:sb_mutex_unlock',
